@@ -19,7 +19,7 @@ ASSUMPTIONS = [
     "implemented content rules are recognised behaviourally: validating a node governed by the rule must not report "
     "UNKNOWN_CONTENT_RULE / UnknownContentRuleError",
 ]
-REQUIRED = ["permitted_pairs_accepted", "minimal_trees_accepted_after_legacy_documents", "loader_copies_edited", "child_name_variants_checked", "rule_queries_exercised", "late_registration_probes", "minimal_trees_accepted_after_queries", "minimal_trees_accepted_after_history", "minimal_trees_accepted_after_repair", "elements_resolved", "rules_parsed", "child_names_checked", "minimal_trees_accepted", "content_rules_exercised"]
+REQUIRED = ["name_lists_edited_by_the_caller", "permitted_pairs_accepted", "minimal_trees_accepted_after_legacy_documents", "loader_copies_edited", "child_name_variants_checked", "rule_queries_exercised", "late_registration_probes", "minimal_trees_accepted_after_queries", "minimal_trees_accepted_after_history", "minimal_trees_accepted_after_repair", "elements_resolved", "rules_parsed", "child_names_checked", "minimal_trees_accepted", "content_rules_exercised"]
 EXHAUSTIVE = {"quick": True, "thorough": True}
 
 
@@ -279,6 +279,24 @@ def query_phase(ctx, gen, elements):
         ctx.count("loader_copies_edited")
     except Exception as ex:
         ctx.violation(f"query-raises:{type(ex).__name__}@{emlkit.raise_site(ex)}", f"rule.load_rules() raised {ex!r}", {"kind": "queries"})
+    # the list of known names is handed out for the caller to do with as they like (sort it for a menu, drop what the application does
+    # not offer): the next caller gets all the names again
+    try:
+        first = mrule.node_names()
+        want = sorted(first)
+        for victim in ("metadata", "references", "dataset"):
+            if victim in first:
+                first.remove(victim)
+        first.sort(reverse=True)
+        del first[:5]
+        first.append("verifApplicationName")
+        again = mrule.node_names()
+        ctx.count("name_lists_edited_by_the_caller")
+        if again is first or sorted(again) != want or sorted(again) != sorted(mrule.node_mappings):
+            ctx.violation("known-names-list-shared-with-callers", f"rule.node_names() after a caller edited the list it had received: {len(again)} names, "
+                                                                  f"{len(want)} before ({sorted(set(want) - set(again))[:5]} missing)", {"kind": "queries"})
+    except Exception as ex:
+        ctx.violation(f"query-raises:{type(ex).__name__}@{emlkit.raise_site(ex)}", f"rule.node_names() raised {ex!r}", {"kind": "queries"})
     # every declared child name in the spellings that are NOT that name: only the name itself is allowed
     for e in elements:
         try:
